@@ -20,7 +20,7 @@ fn strategy(kind: &str, rng: &mut Rng) -> Box<dyn Strategy> {
 
 fn main() {
     let a: Vec<String> = std::env::args().collect();
-    assert!(a.len() >= 5 && a[1] == "sweep", "usage: e2e sweep <seed> <count> <outdir> [k=v...]");
+    assert!(a.len() >= 5 && (a[1] == "sweep" || a[1] == "one"), "usage: e2e sweep <seed> <count> <outdir> [k=v...] | e2e one <block_seed> <sched_seed> <outdir> [k=v...]");
     let seed: u64 = a[2].parse().unwrap();
     let count: u64 = a[3].parse().unwrap();
     let outdir = &a[4];
@@ -35,13 +35,19 @@ fn main() {
     let free = get("free", "0") == "1";
     let maxsteps: u64 = get("maxsteps", "60000").parse().unwrap();
     let dbpoints = get("dbpoints", "1") == "1";
+    let faults = get("faults", "0") == "1";
     fs::create_dir_all(outdir).unwrap();
     let mut summary = fs::File::create(format!("{outdir}/summary.txt")).unwrap();
     let mut rng = Rng::new(seed);
     let (mut mismatches, mut failures) = (0u64, 0u64);
-    for case in 0..count {
-        let mut crng = rng.fork();
-        let case_seed = crng.0;
+    let cases: Vec<(u64, u64)> = if a[1] == "one" {
+        // e2e one <block_seed> <sched_seed> <outdir> ...: replay exactly one (block, schedule)
+        vec![(seed, count)]
+    } else {
+        (0..count).map(|_| { let b = rng.next(); let s = rng.next(); (b, s) }).collect()
+    };
+    for (case, (block_seed, sched_seed)) in cases.iter().copied().enumerate() {
+        let mut crng = Rng(block_seed);
         let n = crng.range(tlo, thi) as usize;
         let opts = GenOpts {
             invalid: optsv.contains("invalid") && crng.chance(1, 2),
@@ -52,21 +58,38 @@ fn main() {
         };
         let (mut world, block) = gen_block(&mut crng, n, opts);
         world.db.points = dbpoints && !free;
-        let orc = oracle(&world.db, &block);
-        let w = *crng.pick(&workers);
+        let mut orc = oracle(&world.db, &block);
+        let mut fault = None;
+        let clean = orc.clone();
+        if faults {
+            let reads: Vec<DbKey> = world.db.reads.lock().unwrap().clone();
+            let (key, mode) = pick_fault(&mut crng, &world, &reads);
+            world.db.faults.lock().unwrap().insert(key.clone(), mode);
+            orc = oracle(&world.db.clone_data(), &block);
+            fault = Some((key, mode));
+        }
+        let mut srng = Rng(sched_seed);
+        let w = *srng.pick(&workers);
         let rc = RunCfg { workers: w, ..Default::default() };
-        let sk = if strat == "mix" { *crng.pick(&["random", "sticky", "pct"]) } else { strat.as_str() };
-        let st = if free { None } else { Some(strategy(sk, &mut crng)) };
+        let sk = if strat == "mix" { *srng.pick(&["random", "sticky", "pct"]) } else { strat.as_str() };
+        let st = if free { None } else { Some(strategy(sk, &mut srng)) };
         let run = run_grevm(world.db.clone_data(), &block, &rc, st, maxsteps);
-        let diffs = compare(&orc, &run.result);
+        let diffs = match &fault {
+            Some((_, mode)) => {
+                let mut clean_db = world.db.clone_data();
+                clean_db.faults.lock().unwrap().clear();
+                fault_verdict(&clean_db, &block, *mode, &clean, &orc, &run.result)
+            }
+            None => compare(&orc, &run.result),
+        };
         let fail = run.report.as_ref().and_then(|r| r.failure.clone());
         let steps = run.report.as_ref().map_or(0, |r| r.steps);
-        writeln!(summary, "case {case} seed={case_seed} n={n} workers={w} strat={sk} steps={steps} spec={:?} diffs={} failure={:?}", block.spec, diffs.len(), fail).unwrap();
+        writeln!(summary, "case {case} block_seed={block_seed} sched_seed={sched_seed} n={n} workers={w} strat={sk} steps={steps} spec={:?} fault={:?} diffs={} failure={:?}", block.spec, fault, diffs.len(), fail).unwrap();
         if !diffs.is_empty() || fail.is_some() || run.panicked.is_some() {
             if !diffs.is_empty() { mismatches += 1; }
             if fail.is_some() { failures += 1; }
             let mut f = fs::File::create(format!("{outdir}/fail-{case}.txt")).unwrap();
-            writeln!(f, "case {case} seed={case_seed} workers={w} strat={sk}\nblock: {:?}\ndescr: {:#?}\ndiffs: {:#?}\nfailure: {:?}\npanicked: {:?}\noracle: {:?}\ngrevm: {:?}", block.spec, block.descr, diffs, fail, run.panicked, orc.result, run.result.result).unwrap();
+            writeln!(f, "case {case} block_seed={block_seed} sched_seed={sched_seed} workers={w} strat={sk} fault={fault:?}\nblock: {:?}\ndescr: {:#?}\ndiffs: {:#?}\nfailure: {:?}\npanicked: {:?}\noracle: {:?}\ngrevm: {:?}", block.spec, block.descr, diffs, fail, run.panicked, orc.result, run.result.result).unwrap();
             if let Some(r) = &run.report {
                 writeln!(f, "trace:\n{}", trace_lines(&r.trace)).unwrap();
             }
@@ -84,5 +107,5 @@ fn main() {
             }
         }
     }
-    println!("cases={count} mismatches={mismatches} driver_failures={failures}");
+    println!("cases={} mismatches={mismatches} driver_failures={failures}", cases.len());
 }
